@@ -1,5 +1,5 @@
 (* C29: concrete inputs satisfy the hypotheses, and the model computes the expected answers. *)
-From SE Require Import Num.NumModel Num.NumPalette Num.NumC29 Num.NumC29P.
+From SE Require Import Num.NumModel Num.NumC29 Num.NumC29F.
 From Coq Require Import List.
 Local Open Scope Z_scope.
 Example C29_examples :
@@ -12,7 +12,9 @@ Example C29_examples :
 Proof. vm_compute. repeat split; reflexivity. Qed.
 Example C29_hypotheses_met :
   xreal (NRat 1 2) = true /\ xreal (NInf (-1)) = true /\ num_wf (NRat 1 2) = true /\
-  In (NDbl 4602678819172646912) real_palette /\ In (NInt 1) real_palette /\
-  le_guard (NDbl 4602678819172646912) (NInt 1) = false /\ length real_palette = 32%nat.
-Proof. repeat split; try reflexivity; cbn; tauto. Qed.
+  num_wf (NDbl 4602678819172646912) = true /\ val (NDbl 4602678819172646912) <> None /\
+  lt_guard (NDbl 4602678819172646912) (NInt 1) = false /\
+  lt_guard (NRat 1 2) (NDbl 4602678819172646912) = false /\          (* 1/2 converts exactly *)
+  lt_guard (NRat 1 3) (NDbl 4602678819172646912) = true.              (* 1/3 does not *)
+Proof. vm_compute. repeat split; try reflexivity. discriminate. Qed.
 Print Assumptions C29_examples.
